@@ -87,7 +87,7 @@ std::string Monitor::head_desc(const std::deque<Item> &q) const
         return std::string(q.front().rule) + ":" + item_desc(q.front());
 }
 
-const char *Monitor::ctx_tag(int fsm) const { return fsm == FSM_EV ? "C13" : last_line_tag.c_str(); }
+const char *Monitor::ctx_tag(int fsm) const { return fsm == FSM_EV ? "C13,C17" : last_line_tag.c_str(); }
 
 // ------------------------------------------------------------------ input side
 
@@ -288,6 +288,11 @@ void Monitor::on_handler(int cmd, int kind, int fsm, const bytes &data, size_t s
                 } else if (fsm == FSM_CMD && cs.only_test && kind != K_TEST) {
                         tag = "C09";
                         rule = "handler-of-test-only-command";
+                } else if (fsm == FSM_EV && !evq_owner.empty() && (uint64_t)evq_owner.front() >= ev_base && (uint64_t)evq_owner.front() - ev_base < evs.size() &&
+                           (evs[(size_t)((uint64_t)evq_owner.front() - ev_base)].cmd != cmd || (evs[(size_t)((uint64_t)evq_owner.front() - ev_base)].type == CT_READ) != (kind == K_READ))) {
+                        // the event being delivered is not the one at the head of the FIFO of accepted events
+                        tag = "C13,C17";
+                        rule = "event-delivered-out-of-order";
                 } else if (!q.empty() && q.front().kind == Item::H) {
                         tag = "C02";
                         rule = "wrong-handler";
@@ -384,7 +389,7 @@ void Monitor::on_varcb(int cmd, int var, int vkind, size_t wsize)
         else if (!cmdq.empty())
                 tag = cmdq.front().tag;
         else
-                tag = cs.ev ? "C13" : last_line_tag;
+                tag = cs.ev ? "C13,C17" : last_line_tag;
         fail(tag, "unexpected-variable-callback", what + "; command side expects " + head_desc(cmdq) + ", event side expects " + head_desc(evq));
 }
 
@@ -578,7 +583,7 @@ void Monitor::classify_stray()
                 fail("C01", "result-code-without-pending-line", "\"" + vis(cur_unit) + "\" emitted although no complete, unanswered command line is pending" +
                                                                       (partial_line() ? " (partial line so far: \"" + vis(cur_line) + "\")" : ""));
         else if (accepted > 0)
-                fail("C13", "unit-with-no-pending-event", "\"" + vis(cur_unit) + "\" emitted although every accepted event has been delivered and no line is pending");
+                fail("C13,C17", "unit-with-no-pending-event", "\"" + vis(cur_unit) + "\" emitted although every accepted event has been delivered and no line is pending");
         else
                 fail("C11", "output-with-nothing-pending", "\"" + vis(cur_unit) + "\" emitted although nothing is pending");
 }
